@@ -20,7 +20,7 @@ Qed.
 
 Lemma drop_passed_later t tr : sorted tr -> snd (drop_passed t tr) = later t tr.
 Proof.
-  induction tr as [|a tr IH]; intro Hs; [reflexivity|]. cbn [drop_passed]. apply sorted_tail in Hs as [Hs Hgt].
+  induction tr as [|a tr IH]; intro Hs; [reflexivity|]. cbn [drop_passed]. unfold cache_trigger_passed. apply sorted_tail in Hs as [Hs Hgt].
   destruct (a <=? t) eqn:E; cbn [snd].
   - rewrite (IH Hs). unfold later. cbn [filter]. replace (t <? a) with false by lia. reflexivity.
   - symmetry. apply later_all. intros x [<-|Hx]; [lia|]. specialize (Hgt x Hx). lia.
